@@ -415,6 +415,19 @@ def run_c18(rep, tier):
                     probs.append(('str round trip', bits, order, str(o)))
             except Exception as ex:
                 probs.append(('str round trip raised %s' % type(ex).__name__, bits, order, str(o)))
+    # 4 variables: a seeded sample in the quick tier (shared sub-diagrams only appear from 4 variables on), everything in thorough
+    r4 = rng('c18-4var')
+    if tier == 'quick':
+        for order in (['a', 'b', 'c', 'd'], ['c', 'a', 'd', 'b']):
+            for _ in range(1500):
+                bits = tuple(r4.randrange(2) for _ in range(16))
+                nexp += 1
+                o = OBDD(build(bits, order), order)
+                try:
+                    if not (OBDD(str(o.root), o.ordering) == o and OBDD(str(o)) == o):
+                        probs.append(('str round trip', bits, order, str(o)))
+                except Exception as ex:
+                    probs.append(('str round trip raised %s' % type(ex).__name__, bits, order, str(o)))
     if tier == 'thorough':
         for order in (['a', 'b', 'c', 'd'], ['c', 'a', 'd', 'b']):
             for bits in itertools.product([0, 1], repeat=16):
